@@ -16,6 +16,12 @@ func runtimeMain(cmd string, args []string) {
 	case "pools":
 		seen, dirty := art.VerifPoolAudit(64)
 		fmt.Printf("pool-audit seen=%d dirty=%d\n", seen, dirty)
+	case "race": // C16, see runtime_race.go
+		runtimeExit(raceMain(args))
+	case "heap": // C17, see runtime_heap.go
+		runtimeExit(heapMain(args))
+	case "gcstress": // C18, see runtime_gc.go
+		runtimeExit(gcMain(args))
 	default:
 		fmt.Fprintln(os.Stderr, "not implemented:", cmd)
 		os.Exit(2)
